@@ -194,6 +194,31 @@ def placements(ctx, vectors):
             if l._protocol:
                 l._disconnect()
     vloop.run(loop, go2())
+
+    # with the default retry budget: the FIRST transmission is answered with the altered packet, any retransmission with the authentic one.
+    # The alteration is not a lost packet: it must surface as a protocol error, it is not papered over by a resend
+    seq = {"n": 0, "q": b"", "orig": b""}
+
+    def on_bytes3(tr, data):
+        seq["n"] += 1
+        loop.call_soon(tr.feed, seq["q"] if seq["n"] == 1 else seq["orig"])
+    net.on_bytes = on_bytes3
+    rs = rng.sample(anym + trunc, min(len(anym) + len(trunc), ctx.pick(80, 1200)))
+
+    async def go3():
+        for v in rs:
+            l = LAN("10.0.0.1", 6444, 1)
+            seq.update(n=0, q=bytes(v["q"]), orig=bytes(v["orig"]))
+            try:
+                r = await l.send(b"\xaa\x01")                    # default retries
+                res = {"k": "frame", "f": B(r[-1]) if r else []}
+            except Exception as e:  # noqa: BLE001 - code under test
+                res = {"k": "raise", "exc": type(e).__name__}
+            out.append(dict(v, res=res, via="LAN.send with the default retry budget, altered reply to the first transmission, authentic replies afterwards"))
+            if l._protocol:
+                l._disconnect()
+    vloop.run(loop, go3())
+    net.on_bytes = on_bytes
     # inside a valid V3 packet
     s = sched.Session(version=3, retries=1, seed=ctx.seed)
     try:
@@ -227,7 +252,7 @@ def judge(ctx, vectors, canaries=True):
     n = len(vectors)
     if len({i for i, _ in rej if i >= n}) != len(cans):
         from ..tlc import MachineryError
-        raise MachineryError("Trace_V2 accepted a canary")
+        ctx.defer_machinery("Trace_V2 accepted a canary")
     ctx.extra["canaries_rejected"] = len(cans)
     for i, clause in rej:
         if i < n:
